@@ -17,6 +17,7 @@ import (
 	"strings"
 
 	"github.com/makiuchi-d/gozxing"
+	"github.com/makiuchi-d/gozxing/oned"
 )
 
 func init() {
@@ -130,11 +131,30 @@ type imgpath1dOut struct {
 }
 
 func imgpath1dRead(rd gozxing.Reader, bmp *gozxing.BinaryBitmap, th bool) imgpath1dOut {
+	return imgpath1dReadH(rd, bmp, th, nil)
+}
+
+// the multi-format UPC/EAN reader built from and called with POSSIBLE_FORMATS = fs (nil: no such hint)
+func imgpath1dReadMulti(bmp *gozxing.BinaryBitmap, th bool, fs []gozxing.BarcodeFormat) imgpath1dOut {
+	var base c10Hints
+	if fs != nil {
+		base = c10Hints{gozxing.DecodeHintType_POSSIBLE_FORMATS: fs}
+	}
+	return imgpath1dReadH(oned.NewMultiFormatUPCEANReader(base), bmp, th, base)
+}
+
+func imgpath1dReadH(rd gozxing.Reader, bmp *gozxing.BinaryBitmap, th bool, base c10Hints) imgpath1dOut {
 	var o imgpath1dOut
 	o.s = Safe(func() string {
 		var hints c10Hints
-		if th {
-			hints = c10Hints{gozxing.DecodeHintType_TRY_HARDER: true}
+		if th || base != nil {
+			hints = c10Hints{}
+			for k, v := range base {
+				hints[k] = v
+			}
+			if th {
+				hints[gozxing.DecodeHintType_TRY_HARDER] = true
+			}
 		}
 		r, e := rd.Decode(bmp, hints)
 		if e != nil {
@@ -316,6 +336,37 @@ func imgpath1dSuite(c *Ctx, poses bool) {
 				o := imgpath1dRead(sym.reader(cs), bmp, th)
 				c.Cmp("img1d-path", fmt.Sprintf("img1d path %s %s %s %s %s", args, pose, binz, imgpath1dB(cs.extended), imgpath1dB(th)), o.s)
 				c.Note(fmt.Sprintf("img1d:%s:%s:m%+d:%s", sym.name, pose, m-need, o.s[:c10Min(len(o.s), 6)]))
+				// the multi-format UPC/EAN reader: POSSIBLE_FORMATS = own format / all four / no hint
+				if c03IsUPC(sym.name) {
+					all4 := []gozxing.BarcodeFormat{gozxing.BarcodeFormat_UPC_A, gozxing.BarcodeFormat_EAN_13, gozxing.BarcodeFormat_UPC_E, gozxing.BarcodeFormat_EAN_8}
+					for mi, fs := range [][]gozxing.BarcodeFormat{{sym.format}, nil, all4} {
+						if (ci+gi+mi)%2 == 1 && mi == 2 {
+							continue
+						}
+						fstr := "-"
+						if fs != nil {
+							var names []string
+							for _, f := range fs {
+								names = append(names, f.String())
+							}
+							fstr = strings.Join(names, ",")
+						}
+						om := imgpath1dReadMulti(imgpath1dBitmap(pm, binz), th, fs)
+						c.Cmp("img1d-path", fmt.Sprintf("img1d pathm %s %s %d %d %s %s %s %s %s", sym.name, imgpath1dContents(sym, cs),
+							g.width, g.height, ms, pose, binz, fstr, imgpath1dB(th)), om.s)
+						if m >= need && pose == "up" && mi < 2 {
+							wf, wt := sym.format.String(), cs.want
+							if mi == 1 && sym.name == "upca" { // no hint: reported as EAN-13 "0"+text (the repo's own tests pin this)
+								wf, wt = "EAN_13", "0"+cs.want
+							}
+							if mi == 0 || sym.name == "ean13" || sym.name == "upca" {
+								c.Oracle("img1d-oracle", om.ok && om.text == wt && om.format == wf && om.orient == "none",
+									sym.name+"-img1d-multi", fmt.Sprintf("%s width=%d height=%d margin=%s binarizer=%s POSSIBLE_FORMATS=%s", args, g.width, g.height, ms, binz, fstr),
+									"multi-format reader: "+om.s+" expected "+wf+" "+hexs([]byte(wt)))
+							}
+						}
+					}
+				}
 				// a single black row of the posed picture and of the rotated bitmap
 				y := r.Intn(pm.GetHeight())
 				if pm.GetWidth()*pm.GetHeight() <= 6000 {
